@@ -149,10 +149,123 @@ func raceSig(blk string) (string, bool) {
 	return strings.Join(frames, " <-> "), true
 }
 
+var c12Cold = true
+
+// c12ColdStart: the very first parser uses of the process happen
+// concurrently (lazily built global state would be written here).
+func c12ColdStart(c *mon.Ctx) {
+	if !c12Cold {
+		return
+	}
+	c12Cold = false
+	const G = 16
+	var ready, done sync.WaitGroup
+	gate := make(chan struct{})
+	fails := make([]string, G)
+	ready.Add(G)
+	done.Add(G)
+	for gi := 0; gi < G; gi++ {
+		gi := gi
+		go func() {
+			defer done.Done()
+			text := c12FixedExprs[gi%len(c12FixedExprs)]
+			ready.Done()
+			<-gate
+			switch gi % 3 {
+			case 0:
+				if ev, err, pan, _ := createEval(text); pan != "" || err != nil || ev == nil {
+					fails[gi] = "CreateEvaluator(" + text + "): " + fmt.Sprint(err) + pan
+				}
+			case 1:
+				var f *bexpr.Filter
+				var err error
+				if t := mon.Try(func() { f, err = bexpr.CreateFilter(text) }); t.Panic || err != nil || f == nil {
+					fails[gi] = "CreateFilter(" + text + "): " + fmt.Sprint(err) + t.PanicVal
+				}
+			default:
+				if _, err, pan, _ := parsePublic(text); pan != "" || err != nil {
+					fails[gi] = "Parse(" + text + "): " + fmt.Sprint(err) + pan
+				}
+			}
+		}()
+	}
+	ready.Wait()
+	close(gate)
+	done.Wait()
+	for _, f := range fails {
+		if f != "" {
+			c.Violation("C12 concurrent-first-creation-failed", "creating evaluators concurrently as the first parser use of the process failed", map[string]any{"failure": f})
+			break
+		}
+	}
+	c.Count("cold_start_concurrent_creations")
+}
+
+// c12FilterArrays: one shared Filter executed concurrently on Go arrays (and
+// slices, maps) of different types.
+func c12FilterArrays(c *mon.Ctx) {
+	type e1 struct{ A int }
+	type e2 struct {
+		A int
+		B string
+	}
+	inputs := []func() interface{}{
+		func() interface{} { return [3]e1{{1}, {2}, {1}} },
+		func() interface{} { return [2]e2{{1, "x"}, {3, "y"}} },
+		func() interface{} { return [4]map[string]interface{}{{"A": 1}, {"A": 2}, {"A": 1}, {"A": 1}} },
+		func() interface{} { return []e1{{1}, {5}} },
+		func() interface{} { return map[string]e2{"k": {1, "x"}, "l": {2, "y"}} },
+		func() interface{} { return [0]e1{} },
+	}
+	for _, text := range []string{`A == 1`, `A != 1`} {
+		shared, _ := bexpr.CreateFilter(text)
+		want := make([]string, len(inputs))
+		for i, mk := range inputs {
+			fresh, _ := bexpr.CreateFilter(text)
+			x := execute(fresh, mk())
+			want[i] = fmt.Sprintf("%T %#v err=%v %s", x.out, x.out, x.err != nil, x.panic)
+		}
+		const G = 12
+		var ready, done sync.WaitGroup
+		gate := make(chan struct{})
+		bad := make([]string, G)
+		ready.Add(G)
+		done.Add(G)
+		for gi := 0; gi < G; gi++ {
+			gi := gi
+			go func() {
+				defer done.Done()
+				ready.Done()
+				<-gate
+				for k := 0; k < 40; k++ {
+					i := (gi + k) % len(inputs)
+					x := execute(shared, inputs[i]())
+					if got := fmt.Sprintf("%T %#v err=%v %s", x.out, x.out, x.err != nil, x.panic); got != want[i] && bad[gi] == "" {
+						bad[gi] = "input " + fmt.Sprint(i) + ": concurrent " + got + " / sequential " + want[i]
+					}
+				}
+			}()
+		}
+		ready.Wait()
+		close(gate)
+		done.Wait()
+		for _, b := range bad {
+			if b != "" {
+				c.Violation("C12 concurrent-filter-result-differs arrays", "a Filter shared by goroutines filtering containers of different types returned something else than sequentially", map[string]any{"expression": text, "difference": clip(b, 600)})
+				break
+			}
+		}
+		c.Add("concurrent_calls", G*40)
+		c.Count("shared_filter_over_mixed_container_types")
+	}
+}
+
 func c12Run(c *mon.Ctx, idx int) {
 	procs := []int{16, 4, 2}[idx%3]
 	old := runtime.GOMAXPROCS(procs)
 	defer runtime.GOMAXPROCS(old)
+	c12ColdStart(c)
+	c12FilterArrays(c)
 	r := c.RNG(idx)
 	nEval := tierN(c.Tier, 110, 600)
 	G := tierN(c.Tier, 12, 24)
@@ -326,7 +439,7 @@ func init() {
 		SingleProcess: true,
 		Extra:         map[string]any{"race": true},
 		Required: func(tier string) []string {
-			return []string{"evaluators_shared", "concurrent_calls", "overlapping_call_pairs", "evaluators_with_overlapping_first_calls", "race_log_inspected", "evaluator_kind:fixed", "evaluator_kind:random", "evaluator_kind:hook-gosched", "evaluator_kind:unknown", "evaluator_kind:tag"}
+			return []string{"evaluators_shared", "cold_start_concurrent_creations", "shared_filter_over_mixed_container_types", "concurrent_calls", "overlapping_call_pairs", "evaluators_with_overlapping_first_calls", "race_log_inspected", "evaluator_kind:fixed", "evaluator_kind:random", "evaluator_kind:hook-gosched", "evaluator_kind:unknown", "evaluator_kind:tag"}
 		},
 		Post: func(a *mon.Agg) {
 			if a.Counters["harness_only_race_blocks"] > 0 {
